@@ -33,7 +33,7 @@ func c13Child(c *mon.Child) {
 		c.Feature("grammars_built")
 		r := c.RNG("inputs", h.ID)
 		smp := gram.NewSampler(g, r)
-		inputs := smp.Inputs(nInputs)
+		inputs := append(featInputs(g), smp.Inputs(nInputs)...)
 		if c.Thorough() && gi%4 == 0 {
 			smp.Exhaustive(4, 5, func(t []string) { inputs = append(inputs, append([]string{}, t...)) })
 			c.Feature("grammars_with_exhaustive_short_inputs")
